@@ -150,7 +150,7 @@ class Kernel:
         f = self._fd(fd)
         if f["peer"] is None:
             raise OSError(9, "not writable")
-        if self.env.in_threadsafe_callback:
+        if self.env.in_threadsafe_callback and getattr(self.env, "allow_write_deferral", True):
             # the other thread may be preempted between its append and its write
             c = self.ch.choose(["write_now", "write_deferred"], [0, 1])
             if c == 1:
